@@ -467,7 +467,7 @@ def parse_place(s):
         j = match_paren(rest, 0)
         idx = rest[1:j]
         rest = rest[j + 1:]
-        m = re.match(r'^(-?\d+) of (\d+)$', idx)
+        m = re.match(r'^(\d+) of (\d+)$', idx)
         if m:
             pr.append(('cidx', int(m.group(1)), False))
             continue
@@ -479,9 +479,9 @@ def parse_place(s):
         if m:
             pr.append(('idx', int(m.group(1))))
             continue
-        m = re.match(r'^(\d+):(-?)(\d*)$', idx)
+        m = re.match(r'^(\d*):(-?)(\d*)$', idx)
         if m:
-            pr.append(('sub', int(m.group(1)), int(m.group(3) or 0), m.group(2) == '-'))
+            pr.append(('sub', int(m.group(1) or 0), int(m.group(3) or 0), m.group(2) == '-'))
             continue
         raise MirError('index? ' + idx)
     return loc, pr
